@@ -183,6 +183,9 @@ inductive ElemKindN (ft : Feat) (Γ : Ctx) (m : XmlMeta) (var : XmlVar) : Prop
       (ht : var.types = [.cls c])
       (hd : if var.listElement then var.default = .listFactory else var.default = .none)
       (hm : metaOf Γ c (targetUri m.qname) = some m')
+  | union (hc : var.clazz = none) (hp : primTypeOf var = none) (hu : primUnionOf var = true)
+      (hi : var.init = true) (htk : var.tokens = false) (hn : var.nillable = false)
+      (hd : if var.listElement then var.default = .listFactory else var.default = .none)
 
 theorem elemFactsN_of {ft : Feat} {Γ : Ctx} {m : XmlMeta} {ci : ClassInfo} {var : XmlVar}
     (MF : MetaFactsN ft Γ ci m) (hmem : var ∈ m.elementVars)
@@ -244,7 +247,11 @@ theorem elemFactsN_of {ft : Feat} {Γ : Ctx} {m : XmlMeta} {ci : ClassInfo} {var
     | none =>
       rw [hcl] at hkind
       cases hpt : primTypeOf var with
-      | none => simp [hpt] at hkind
+      | none =>
+        simp only [hpt, Bool.and_eq_true, Bool.not_eq_true'] at hkind
+        obtain ⟨⟨⟨⟨⟨_, hu⟩, hi⟩, htk⟩, hn⟩, hd⟩ := hkind
+        refine ElemKindN.union hcl hpt hu hi htk hn ?_
+        split at hd <;> simp_all
       | some t =>
         obtain ⟨htp, _⟩ := primTypeOf_some hpt
         simp only [hpt] at hkind
@@ -283,9 +290,9 @@ theorem wildFactsN_of {ft : Feat} {Γ : Ctx} {m : XmlMeta} {ci : ClassInfo} {wv 
     WildFactsN m wv ∧ fieldAgreesN ci wv = true := by
   simp only [wildVarOK, Bool.and_eq_true, decide_eq_true_eq, Bool.not_eq_true',
     Option.isNone_iff_eq_none, List.isEmpty_iff] at hok
-  obtain ⟨⟨⟨⟨⟨⟨⟨⟨⟨⟨⟨⟨⟨⟨⟨⟨⟨h1, h2⟩, h3⟩, h4⟩, h5⟩, h6⟩, h7⟩, h8⟩, h9⟩, h10⟩, h11⟩, h12⟩, h13⟩, h14⟩, h15⟩,
+  obtain ⟨⟨⟨⟨⟨⟨⟨⟨⟨⟨⟨⟨⟨⟨⟨⟨h1, h3⟩, h4⟩, h5⟩, h6⟩, h7⟩, h8⟩, h9⟩, h10⟩, h11⟩, h12⟩, h13⟩, h14⟩, h15⟩,
     h16⟩, _⟩, h18⟩ := hok
-  refine ⟨⟨?_, h2, h3, h4, h5, h6, h7, h8, h9, h10, h11, h12, h13, ?_, h15, h16, hw, MF.choices⟩, h18⟩
+  refine ⟨⟨?_, h3, h4, h5, h6, h7, h8, h9, h10, h11, h12, h13, ?_, h15, h16, hw, MF.choices⟩, h18⟩
   · simpa [VarCore.isWildcard] using h1
   · intro h; rw [h] at h14; simp at h14
 
